@@ -19,7 +19,10 @@ import json
 import os
 import pickle
 import re
+import select
+import signal
 import sys
+import time
 import traceback
 
 from core.engine import Property, F
@@ -105,6 +108,9 @@ def _learner(kind, r):
     if t == "row":
         from props.c01_components import RowLearner
         return RowLearner(r["tag"])
+    if t == "nocopy":
+        from props.c01_components import NoCopyLearner
+        return NoCopyLearner(r["tag"])
     raise ValueError(t)
 
 
@@ -300,16 +306,27 @@ def canon_result(r):
             "ints": [[list(k), ints[k]] for k in order]}
 
 
-def run_once(case, cfg, how="inproc", sched=0, built=None, trace=None):
+def run_once(case, cfg, how="inproc", sched=0, built=None, trace=None, pre=None):
     """construct the experiment afresh and run it under cfg=(processes,maxchunksperchild,maxtasksperchunk).
-    how: 'inproc' / 'real' use coba unchanged; 'sim' substitutes the permuting simulator."""
+    how: 'inproc' / 'real' use coba unchanged; 'sim' substitutes the permuting simulator.
+    pre: an earlier run of the same session — the same recipe constructed and run with another seed / configuration in
+    this very process before the run that is judged (its Result is thrown away)."""
     import coba.multiprocessing as cmp
-    from coba.context import CobaContext, BasicLogger, NullCacher
+    from coba.context import CobaContext, BasicLogger, NullCacher, NullLogger
     from coba.pipes import ListSink
     saved = _ctx_get()
     old_mp = cmp.Multiprocessor
     sink = ListSink()
     try:
+        if pre:
+            _ctx_set((NullLogger(), NullCacher(), {}, {}))
+            pb = build(case)
+            try:
+                if pre["how"] == "sim" and (pre["cfg"][0] > 1 or pre["cfg"][1] != 0):
+                    cmp.Multiprocessor = make_sim(pre.get("sched", 0))
+                pb.exp.run(processes=pre["cfg"][0], maxchunksperchild=pre["cfg"][1], maxtasksperchunk=pre["cfg"][2], seed=pre["seed"])
+            finally:
+                cmp.Multiprocessor = old_mp
         _ctx_set((BasicLogger(sink), NullCacher(), {}, {}))
         b = built or build(case)
         before = [snapshot(l) for l in b.lrns]
@@ -335,7 +352,11 @@ def snapshot(lrn):
         return None
 
 
-def isolated(fn, *args, **kw):
+class RunTimeout(Exception):
+    pass
+
+
+def isolated(fn, *args, timeout=60, **kw):
     """run fn in a forked child of this (pristine) process and return its result: every experiment run of a case starts
     from the same process state, so module- or class-level state a run leaves behind cannot reach the next run — in
     particular not the reference runs the other runs are compared with"""
@@ -344,6 +365,7 @@ def isolated(fn, *args, **kw):
     if pid == 0:
         try:
             os.close(r)
+            os.setsid()                 # own process group: spawned workers can be removed together with this child
             try:
                 out = ("ok", fn(*args, **kw))
             except BaseException as e:
@@ -359,14 +381,28 @@ def isolated(fn, *args, **kw):
         finally:
             os._exit(0)
     os.close(w)
+    data = b""
+    deadline = time.time() + timeout
     try:
-        with os.fdopen(r, "rb") as f:
-            data = f.read()
+        while True:
+            left = deadline - time.time()
+            if left <= 0:
+                raise RunTimeout("an experiment run did not finish within %ds" % timeout)
+            ready, _, _ = select.select([r], [], [], min(left, 1.0))
+            if ready:
+                part = os.read(r, 1 << 16)
+                if not part:
+                    break
+                data += part
     finally:
+        os.close(r)
         try:
-            os.kill(pid, 9)
+            os.killpg(pid, signal.SIGKILL)
         except OSError:
-            pass
+            try:
+                os.kill(pid, signal.SIGKILL)
+            except OSError:
+                pass
         try:
             os.waitpid(pid, 0)
         except OSError:
@@ -379,8 +415,9 @@ def isolated(fn, *args, **kw):
     return val
 
 
-def run_iso(case, cfg, how="inproc", sched=0):
-    return isolated(run_once, case, cfg, how, sched)
+def run_iso(case, cfg, how="inproc", sched=0, pre=None):
+    slow = how == "real" or (pre or {}).get("how") == "real"
+    return isolated(run_once, case, cfg, how, sched, pre=pre, timeout=60 if slow else 25)
 
 
 def markers(log_lines):
@@ -647,13 +684,20 @@ def gen_cfg(rng):
     return [rng.choice([1, 1, 2, 2, 3, 4]), rng.choice([0, 0, 1, 2, 3]), rng.choice([0, 0, 1, 1, 2, 3, 5])]
 
 
-def gen_runs(rng, tier, real_p, n_alt):
+def gen_runs(rng, tier, real_p, n_alt, seed=1):
     runs = [{"cfg": [1, 0, 0], "how": "inproc", "sched": 0}]
     for _ in range(n_alt):
         cfg = gen_cfg(rng)
         multi = cfg[0] > 1 or cfg[1] != 0
         how = "inproc" if not multi else ("real" if rng.chance(real_p) else "sim")
-        runs.append({"cfg": cfg, "how": how, "sched": rng.randint(0, 10 ** 6)})
+        run = {"cfg": cfg, "how": how, "sched": rng.randint(0, 10 ** 6)}
+        if rng.chance(0.22):
+            # a session: the same recipe was already run once in this process, with another seed (and configuration)
+            pcfg = list(cfg) if rng.chance(0.6) else gen_cfg(rng)
+            pmulti = pcfg[0] > 1 or pcfg[1] != 0
+            run["pre"] = {"seed": seed + rng.randint(1, 5), "cfg": pcfg, "sched": rng.randint(0, 10 ** 6),
+                          "how": "inproc" if not pmulti else ("real" if how == "real" else "sim")}
+        runs.append(run)
     return runs
 
 
@@ -712,7 +756,7 @@ def gen_toy(rng, tier, real_p=0.03, fail_bias=1.0, share_bias=1.0):
         case["triples"] = [[rng.below(ne), rng.below(nl), rng.below(nv)] for _ in range(k)]
         if rng.chance(0.25 * share_bias) and k > 1:
             case["triples"].append(list(rng.choice(case["triples"])))   # a duplicated triple
-    case["runs"] = gen_runs(rng, tier, real_p, rng.choice([1, 2, 2, 3]))
+    case["runs"] = gen_runs(rng, tier, real_p, rng.choice([1, 2, 2, 3]), case["seed"])
     if rng.chance(0.35):
         case["rerun"] = True
     return case
@@ -769,13 +813,14 @@ def gen_builtin(rng, tier, real_p=0.03):
     vals = []
     for t in range(rng.choice([1, 2, 2, 3])):
         k = rng.below(10)
-        if k < 4:
+        if k < 3:
             rec = rng.choice([["reward", "action", "probability"], ["reward", "time"], ["reward", "action", "context", "time"], ["reward"]])
             vals.append({"type": "seq", "record": rec, "seed": rng.choice([None, None, 5]), "learn": "on", "eval": "on"})
-        elif k < 5 and any_logged:
-            vals.append({"type": "seq", "record": ["reward"], "seed": rng.choice([None, 2]), "learn": rng.choice(["off", "ips"]), "eval": "ips"})
+        elif k < 6 and any_logged:
+            # off-policy evaluation: whether the learner has `score` decides how the ips reward is computed
+            vals.append({"type": "seq", "record": ["reward"], "seed": rng.choice([None, 2]), "learn": rng.choice([None, None, "off", "ips"]), "eval": "ips"})
         elif k < 8 and any_logged:
-            vals.append({"type": "rej", "record": rng.choice([["reward", "time"], ["reward", "action"], ["reward"]]), "seed": rng.choice([None, 3])})
+            vals.append({"type": "rej", "record": rng.choice([["reward", "time"], ["reward", "action"], ["reward"]]), "seed": rng.choice([None, 3, 3, 4])})
         elif k < 9:
             vals.append({"type": "fn"})
         else:
@@ -791,7 +836,17 @@ def gen_builtin(rng, tier, real_p=0.03):
     else:
         case["mode"] = "tuples"
         case["triples"] = [[rng.below(ne), rng.below(nl), rng.choice([-1] + list(range(nv)) * 3)] for _ in range(rng.choice([1, 2, 3, 4, 6]))]
-    case["runs"] = gen_runs(rng, tier, real_p, rng.choice([1, 2]))
+    case["runs"] = gen_runs(rng, tier, real_p, rng.choice([1, 2]), case["seed"])
+    if rng.chance(0.08):
+        # a learner that can be used but not copied (it holds a generator): only in-process configurations make sense,
+        # its triples fail (logged) when it is listed more than once, everybody else must be unaffected
+        lrns.append({"type": "nocopy", "tag": len(lrns)})
+        if case["mode"] == "product":
+            case["pl"] = case["pl"] + [len(lrns) - 1]
+        else:
+            case["triples"] += [[rng.below(ne), len(lrns) - 1, rng.choice([-1] + list(range(nv)))] for _ in range(rng.choice([1, 2, 2]))]
+        case["runs"] = [{"cfg": [1, 0, 0], "how": "inproc", "sched": 0}] + [
+            {"cfg": [1, 0, rng.choice([1, 2, 3])], "how": "inproc", "sched": 0} for _ in range(rng.choice([1, 2]))]
     if rng.chance(0.3):
         case["rerun"] = True
     return case
@@ -812,6 +867,9 @@ def shrink_case(case):
                 c2 = list(c)
                 c2[j] -= 1
                 yield dict(case, runs=runs[:k] + [dict(runs[k], cfg=c2)] + runs[k + 1:])
+    for k in range(1, len(runs)):
+        if runs[k].get("pre"):
+            yield dict(case, runs=runs[:k] + [{a: b for a, b in runs[k].items() if a != "pre"}] + runs[k + 1:])
     if case.get("rerun"):
         yield {k: v for k, v in case.items() if k != "rerun"}
     if case["mode"] == "tuples":
@@ -877,6 +935,10 @@ def snippet_for(case, prop):
 
 
 # ------------------------------------------------------------------ the property
+MAX_RUNS = 5          # configurations per case
+CASE_BUDGET = 30      # seconds after which no further run of a case is started
+
+
 class C01(Property):
     id = "C01"
     prop_modules = ["CobaVerif.Props.C01"]
@@ -952,14 +1014,28 @@ class C01(Property):
         tags.append("kind:" + kind)
         tags.append("mode:" + case["mode"])
         tags += feature_tags(case)
-        runs = case["runs"]
+        runs = case["runs"][:MAX_RUNS]
         outs = []
-        for run in runs:
-            o = run_iso(case, run["cfg"], run["how"], run["sched"])
+        t_end = time.time() + CASE_BUDGET
+        for k, run in enumerate(runs):
+            try:
+                if k > 0 and time.time() > t_end:
+                    raise RunTimeout("the runs of this case already took more than %ds" % CASE_BUDGET)
+                o = run_iso(case, run["cfg"], run["how"], run["sched"], run.get("pre"))
+            except RunTimeout as e:
+                # never a verdict about the property: reported as infrastructure, the remaining runs are dropped
+                fails.append(F("T", "cfg %s (%s): %s" % (run["cfg"], run["how"], e), "timeout"))
+                tags.append("timeout")
+                runs = runs[:k]
+                break
             outs.append(o)
+            if run.get("pre"):
+                tags.append("session:pre-run-" + run["pre"]["how"])
             tags.append("how:" + run["how"])
             multi = run["cfg"][0] > 1 or run["cfg"][1] != 0
             tags.append("cfg:%s%s%s" % ("multi" if multi else "inproc", ",mc>0" if run["cfg"][1] else "", ",mt>0" if run["cfg"][2] else ""))
+        if not outs:
+            return {"fails": fails, "nontrivial": False, "tags": tags}
         base = outs[0]["result"]
         known_defect = False
         # (B) configuration independence
@@ -976,11 +1052,18 @@ class C01(Property):
             if not o["store_clean"]:
                 fails.append(F("A", "experiment_seed left in CobaContext.store after run", "A:store"))
         # (B) a second construct-and-run gives the same Result
-        if case.get("rerun"):
+        if case.get("rerun") and time.time() < t_end:
             tags.append("rerun")
             k = len(runs) - 1
-            again = run_iso(case, runs[k]["cfg"], "sim" if runs[k]["how"] == "real" else runs[k]["how"], runs[k]["sched"] + 1)
-            d = diff_tables(outs[k]["result"], again["result"])
+            how2 = "sim" if runs[k]["how"] == "real" else runs[k]["how"]
+            try:
+                # literally a second construct-and-run: same recipe, same seed, same configuration, same process
+                again = run_iso(case, runs[k]["cfg"], how2, runs[k]["sched"] + 1,
+                                {"seed": case["seed"], "cfg": runs[k]["cfg"], "how": how2, "sched": runs[k]["sched"] + 2})
+                d = diff_tables(outs[k]["result"], again["result"])
+            except RunTimeout as e:
+                fails.append(F("T", "second run under %s: %s" % (runs[k]["cfg"], e), "timeout"))
+                d = []
             if d:
                 ks = known_sig(case, outs[k]["result"], again["result"])
                 fails.append(F("B", "constructing and running the same experiment a second time under %s changed %s: %s vs %s" % (
@@ -1101,6 +1184,39 @@ def directed_cases():
                "lrns": [{"type": "pmf", "tag": 0}], "vals": [{"type": "seq", "record": ["reward", "action"], "seed": None}],
                "mode": "product", "pe": [0, 1], "pl": [0], "pv": [0],
                "runs": [inproc, {"cfg": [1, 1, 1], "how": "real", "sched": 0}]})
+    # --- second follow-up round: state that survives from one evaluation / one run of a session to the next
+    # an earlier run of the session with another seed on workers, then this seed on workers vs. the in-process reference
+    cs.append({"kind": "toy", "seed": 7, "envs": [{"tag": 0, "xs": [1, 2, 3], "raw": True}, {"tag": 1, "xs": [4, 5], "raw": True}],
+               "lrns": [{"tag": 0, "mult": 1}, {"tag": 1, "mult": 2}], "vals": [{"tag": 0, "seed": None, "learn": True}],
+               "mode": "product", "pe": [0, 1], "pl": [0, 1], "pv": [0],
+               "runs": [inproc, {"cfg": [2, 0, 0], "how": "real", "sched": 0, "pre": {"seed": 5, "cfg": [2, 0, 0], "how": "real", "sched": 0}},
+                        {"cfg": [1, 1, 0], "how": "sim", "sched": 3, "pre": {"seed": 9, "cfg": [2, 0, 1], "how": "sim", "sched": 4}}]})
+    cs.append({"kind": "builtin", "seed": 7, "envs": [{"src": "linear", "n": 12, "na": 3, "seed": 4, "prefix": [], "branches": [[["shuffle", 2]]]}],
+               "lrns": [{"type": "pmf", "tag": 0}], "vals": [{"type": "seq", "record": ["reward", "action", "probability"], "seed": None}],
+               "mode": "product", "pe": [0, 1], "pl": [0], "pv": [0], "single_eval": True,
+               "runs": [inproc, {"cfg": [2, 0, 0], "how": "sim", "sched": 1, "pre": {"seed": 5, "cfg": [2, 0, 0], "how": "sim", "sched": 2}}], "rerun": True})
+    # one SequentialCB(learn=None, eval='ips') object for learners with and without `score`, both orders
+    for order in ([0, 1], [1, 0]):
+        cs.append({"kind": "builtin", "seed": 1,
+                   "envs": [{"src": "linear", "n": 12, "na": 3, "seed": 2, "logged": True, "log_seed": 4, "prefix": [], "branches": [[["shuffle", 2]]]}],
+                   "lrns": [{"type": "policy", "tag": 0, "p": 0.5}, {"type": "pmf", "tag": 1}],
+                   "vals": [{"type": "seq", "record": ["reward"], "seed": None, "learn": None, "eval": "ips"}],
+                   "mode": "product", "pe": [0, 1], "pl": order, "pv": [0], "single_eval": True,
+                   "runs": [inproc, {"cfg": [2, 0, 0], "how": "sim", "sched": 5}, {"cfg": [1, 1, 0], "how": "sim", "sched": 6}]})
+    # one RejectionCB object with an explicit seed for several triples
+    cs.append({"kind": "builtin", "seed": 1,
+               "envs": [{"src": "linear", "n": 30, "na": 3, "seed": 3, "logged": True, "log_seed": 2, "prefix": [], "branches": [[["shuffle", 2]]]}],
+               "lrns": [{"type": "policy", "tag": 0, "p": 1.0 / 3}, {"type": "policy", "tag": 1, "p": 0.5}],
+               "vals": [{"type": "rej", "record": ["reward", "action"], "seed": 3}],
+               "mode": "product", "pe": [0, 1], "pl": [0, 1], "pv": [0], "single_eval": True,
+               "runs": [inproc, {"cfg": [2, 0, 1], "how": "sim", "sched": 7}]})
+    # a learner that cannot be copied, listed for two environments, next to an ordinary one (in-process only)
+    cs.append({"kind": "builtin", "seed": 1,
+               "envs": [{"src": "linear", "n": 4, "na": 3, "seed": 1, "prefix": [], "branches": [[]]}, {"src": "linear", "n": 6, "na": 3, "seed": 2, "prefix": [], "branches": [[]]}],
+               "lrns": [{"type": "nocopy", "tag": 0}, {"type": "row", "tag": 1}],
+               "vals": [{"type": "seq", "record": ["reward", "action"], "seed": None}],
+               "mode": "product", "pe": [0, 1], "pl": [0, 1], "pv": [0],
+               "runs": [inproc, {"cfg": [1, 0, 1], "how": "inproc", "sched": 0}]})
     return cs
 
 
